@@ -103,19 +103,24 @@ func genReplica(t *rapid.T) histCase {
 	c.Cfg.SBM = rapid.SampledFrom([]int{0, 1, 10, 30, 30, 100}).Draw(t, "sbm")
 	c.Cfg.HealthSQL = rapid.Bool().Draw(t, "health_sql")
 	c.Cfg.StartDown = rapid.IntRange(0, 9).Draw(t, "start_down") == 0
+	c.Cfg.Replicas = rapid.SampledFrom([]int{1, 1, 2, 3}).Draw(t, "replicas")
 	n := rapid.IntRange(4, 16).Draw(t, "nops")
 	// a history has a "weather": mostly fine, mostly failing, or mixed
 	weather := rapid.SampledFrom([]int{0, 1, 2, 2, 2}).Draw(t, "weather")
 	for i := 0; i < n; i++ {
 		k := rapid.IntRange(0, 11).Draw(t, "op")
+		node := 0
+		if c.Cfg.Replicas > 1 {
+			node = rapid.IntRange(0, c.Cfg.Replicas-1).Draw(t, "node")
+		}
 		switch {
 		case k == 0:
 			c.Ops = append(c.Ops, hf.Op{K: "adv", Dt: int64(rapid.SampledFrom([]int{1, 3, 4, 10, 40, 70}).Draw(t, "adv"))})
 		case k == 1:
-			c.Ops = append(c.Ops, hf.Op{K: "fuse", Err: rapid.SampledFrom([]string{"conn", "conn", "sql", "generic", "nil"}).Draw(t, "err"),
+			c.Ops = append(c.Ops, hf.Op{K: "fuse", Node: node, Err: rapid.SampledFrom([]string{"conn", "conn", "sql", "generic", "nil"}).Draw(t, "err"),
 				N: rapid.IntRange(1, 3).Draw(t, "nfuse"), Via: rapid.SampledFrom([]string{"", "getconn"}).Draw(t, "via")})
 		default:
-			op := hf.Op{K: "round", N: rapid.IntRange(1, 5).Draw(t, "n"),
+			op := hf.Op{K: "round", Node: node, N: rapid.IntRange(1, 5).Draw(t, "n"),
 				Dt:     rapid.SampledFrom([]int64{4, 4, 4, 4, 0, 1, 3, 5, 8}).Draw(t, "dt"),
 				Master: rapid.SampledFrom([]string{"", "", "", "", "", "", "down", "down", "missing"}).Draw(t, "master")}
 			fine := weather == 0 && k < 10 || weather == 2 && k < 6
@@ -156,6 +161,7 @@ func checkReplica(c histCase) (o pbt.Outcome) {
 		}
 	}
 	label("policy_" + c.Cfg.Policy)
+	label(fmt.Sprintf("replicas_%d", max(1, c.Cfg.Replicas)))
 	forced := 0
 	for _, st := range tr.Steps {
 		label(st.Kind + ":" + st.Cat)
@@ -195,7 +201,7 @@ func checkReplica(c histCase) (o pbt.Outcome) {
 
 func TestC28Replica(t *testing.T) {
 	pbt.Run(t, pbt.Spec{ID: "C28", Sub: "replica", Quick: 40000, Thorough: 200000,
-		Rule: "no-recovery (60%), hard and gradual replicas; down_after 4-64 s, lag limit 0 (off) / 1-100 s, with and without a health statement; 4-16 ops (up to ~80 rounds) of: rounds at 0-8 s steps with probe outcome (ok, no check connection, ping / select 1 failing at one repeat or always, health statement ok / ordinary error / each fatal class / timeout), SHOW SLAVE STATUS (lag around the limit, stopped IO/SQL thread, NULL lag with stopped / connecting / running threads, empty, no privilege, error), master up/down/missing; clock jumps; breaker calls of every error kind; non-trivial = at least one round in which the reference forces a status change",
+		Rule: "no-recovery (60%), hard and gradual replicas in a group of 1-3 (ops address a random replica, reference state per replica, a step on one replica must not change another); down_after 4-64 s, lag limit 0 (off) / 1-100 s, with and without a health statement; 4-16 ops (up to ~80 rounds) of: rounds at 0-8 s steps with probe outcome (ok, no check connection, ping / select 1 failing at one repeat or always, health statement ok / ordinary error / each fatal class / timeout), SHOW SLAVE STATUS (lag around the limit, stopped IO/SQL thread, NULL lag with stopped / connecting / running threads, empty, no privilege, error), master up/down/missing; clock jumps; breaker calls of every error kind; non-trivial = at least one round in which the reference forces a status change",
 		Floor: 0.5}, genReplica, checkReplica)
 }
 
